@@ -7,7 +7,7 @@
    rows as the plain interpreter. *)
 From Coq Require Import Lia.
 From TF Require Import Values ValuesProofs Cand CandProofs Ty Hints HintsProofs.
-From TF Require Import Exec Sem ExecLemmas Sim SimRec SimComp SimOut SimTop.
+From TF Require Import Exec Sem ExecLemmas Sim SimRec SimComp SimOut SimTop FoldLimits SimFold FoldOut SimGen SemComplete SimFull SimFoldG.
 Local Open Scope string_scope.
 Local Open Scope N_scope.
 Local Open Scope list_scope.
@@ -290,4 +290,291 @@ Proof.
   intros Hind Hok Hargs Hwf Hg Hty H1 H2.
   eapply engine_pruning_invisible_fold_free; eauto.
   now apply hint_pruner_admissible.
+Qed.
+
+(* ====================================================================================== *)
+(* Part 4: queries with @fold (no fold eligible for the take(min) truncation)                *)
+(* ====================================================================================== *)
+Section EnginePFull.
+  Variable re : string -> string -> option bool.
+  Variable g : graph.
+  Variable args : list (string * fv).
+  Variable P : pruner.
+  Hypothesis Hind : ty_indep g.
+
+  (* under admissibility the pruned specification steps are the plain ones *)
+  Lemma adm_step_edge_eq root vs ss outs imp e a :
+    admissible_comp re g args P (mkComp root vs ss outs) -> In (SEdge e) ss ->
+    step_edge re (gP g (pr_edge P vs ss imp e a)) args vs ss imp e a = step_edge re g args vs ss imp e a.
+  Proof.
+    intros (AE & _) He. cbn [c_steps c_vertices] in AE.
+    destruct (find_vertex vs (e_to e)) as [tov|] eqn:Ft.
+    2:{ unfold step_edge. rewrite Ft. destruct (find_vertex vs (e_from e)); reflexivity. }
+    destruct (e_optional e) eqn:Eo.
+    { apply step_edge_keep_all. intros n. destruct (pr_edge P vs ss imp e a n) eqn:K; [reflexivity|].
+      destruct (AE imp e a n tov He Ft K) as (C & _). congruence. }
+    destruct (e_rec e) as [r|] eqn:Er.
+    - destruct (N.leb (r_depth r) 1) eqn:Ed.
+      + apply N.leb_le in Ed. apply (step_edge_prune re g args _ vs ss imp e a tov Ft Eo).
+        * right. eauto.
+        * intros n K. now destruct (AE imp e a n tov He Ft K) as (_ & _ & C).
+      + apply step_edge_keep_all. intros n. destruct (pr_edge P vs ss imp e a n) eqn:K; [reflexivity|].
+        destruct (AE imp e a n tov He Ft K) as (_ & [C|(r' & C & D)] & _); [congruence|].
+        rewrite Er in C. injection C as <-. apply N.leb_le in D. rewrite D in Ed. discriminate.
+    - apply (step_edge_prune re g args _ vs ss imp e a tov Ft Eo); [now left|].
+      intros n K. now destruct (AE imp e a n tov He Ft K) as (_ & _ & C).
+  Qed.
+
+  Lemma expand_edge_P_adm root vs ss outs imp e cs r :
+    admissible_comp re g args P (mkComp root vs ss outs) -> In (SEdge e) ss ->
+    edge_ok e = true -> Forall (clean imp) cs ->
+    expand_edge_P re g args P vs ss e cs = Ok r ->
+    map asg_of r = flat_map (step_edge re g args vs ss imp e) (map asg_of cs)
+    /\ Forall (clean imp) r
+    /\ Forall (fun x => exists c, In c cs /\ frame c x) r.
+  Proof.
+    intros Hadm He Hok Hc H. destruct (expand_edge_P_spec re g args P Hind vs ss imp e cs r Hok Hc H) as (E & H2 & H3).
+    split; [|split; assumption]. rewrite E. apply flat_map_ext. intros a. unfold step_edge_P.
+    eapply adm_step_edge_eq; eauto.
+  Qed.
+
+  (* the pruned fold stage, context by context, against the PLAIN specification of the fold *)
+  Lemma fold_step_P_spec (Pimp : list (fieldref * tagged) -> Prop) (Q : ctx -> Prop) vs ss imp h sub sub_compute cs r :
+    (forall a n, pr_fold P vs ss imp h a n = false ->
+                 sem_comp re g args sub (sub_imports g vs ss imp h a) (Some n) = []) ->
+    (forall imp' cs' r', Pimp imp' -> Forall (clean imp') cs' -> Forall fresh cs' -> sub_compute cs' = Ok r' ->
+        map asg_of r' = flat_map (fun x => sem_comp re g args sub imp' (active x)) cs' /\ Forall Q r') ->
+    (forall a, Pimp (imports_of g vs ss imp a (fo_imported h) imp)) ->
+    no_min_limit args vs ss h sub ->
+    Forall (key_fresh imp) (fo_imported h) ->
+    Forall (clean imp) cs ->
+    fold_step_P re g args P vs ss h sub sub_compute cs = Ok r ->
+    exists yss, Forall2 (after_fold re g args Q vs ss imp h sub) cs yss /\
+                mapM (fold_outputs_one g h sub) (List.concat yss) = Ok r.
+  Proof.
+    intros Hadm Hsub Hpimp Hnomin Hfresh Hc H. unfold fold_step_P in H. apply flat_mapM_ok in H.
+    destruct H as (rs & HF & ->). revert Hc. induction HF as [|c rc cs rs Hrc _ IH]; intros Hc.
+    - exists []. split; [constructor|reflexivity].
+    - inversion Hc as [|? ? Hc1 Hc2]; subst. destruct (IH Hc2) as (yss & HF2 & Hm2).
+      set (k := k_fold P vs ss h c) in *.
+      destruct (fold_step_spec_gen re (gP g k) args (sem_comp re g args sub) Pimp Q vs ss imp h sub sub_compute [c] rc
+                  Hsub Hpimp Hnomin Hfresh (Forall_cons c Hc1 (Forall_nil _)) Hrc) as (yss1 & HF1 & Hm1).
+      inversion HF1 as [|? ys ? yss1' Haf HF1']; subst. inversion HF1'; subst.
+      exists (ys :: yss). split.
+      + constructor; [|exact HF2]. destruct Haf as (Ha1 & Ha2). split; [|exact Ha2].
+        rewrite Ha1. unfold k, k_fold. destruct Hc1 as (_ & _ & _ & ->).
+        apply step_fold_prune. intros n K. exact (Hadm (asg_of c) n K).
+      + cbn [List.concat] in *. rewrite app_nil_r in Hm1. exact (mapM_app_ok _ _ _ _ _ Hm1 Hm2).
+  Qed.
+
+  (* ---------- the step loop (copy of SimGen.exec_steps_spec for the pruned stages) ---------- *)
+  Definition IHsub (sub : ir_component) : Prop :=
+    (forall c', subcomp c' sub -> admissible_comp re g args P c') ->
+    forall outer' imp' cs r, wf_comp args outer' sub -> wf_out sub -> keys_within outer' imp' ->
+      Forall (clean imp') cs -> Forall fresh cs ->
+      compute_component_P re g args P sub cs = Ok r ->
+      map asg_of r = flat_map (fun x => sem_comp re g args sub imp' (active x)) cs /\
+      Forall (FV g sub) r /\ Forall (clean imp') r.
+
+  Lemma exec_steps_P_spec root vs ss outs outer imp todo :
+    (forall c', subcomp c' (mkComp root vs ss outs) -> admissible_comp re g args P c') ->
+    Forall (Psub IHsub) todo ->
+    wf_steps args outer vs ss todo -> keys_within outer imp ->
+    wf_out_steps todo -> incl todo ss -> NoDup (steps_keys ss) -> NoDup (steps_eids ss) ->
+    forall cs r, Forall (clean imp) cs -> Forall (FV g (mkComp root vs ss outs)) cs ->
+      exec_steps_P re g args P vs ss (compute_component_P re g args P) todo cs = Ok r ->
+      map asg_of r = sem_steps re g args vs ss imp todo (map asg_of cs) /\ Forall (clean imp) r /\
+      Forall (FV g (mkComp root vs ss outs)) r.
+  Proof.
+    intros Hadm HIH. pose proof (Hadm _ (sub_here _)) as Hadm0.
+    induction HIH as [|s todo Hs _ IH]; intros Hwf Hk Hwo Hincl Hkeys Heids cs r Hc Hfv H;
+      cbn [exec_steps_P sem_steps wf_steps wf_out_steps] in *.
+    - injection H as <-. split; [reflexivity|]. split; assumption.
+    - assert (Hincl' : incl todo ss) by (intros y Hy; apply Hincl; now right).
+      assert (Hin : In s ss) by (apply Hincl; now left).
+      destruct s as [e|h sub].
+      + destruct Hwf as (Hok & Hwf). invb H as x Hx.
+        destruct (expand_edge_P_adm root vs ss outs imp e cs x Hadm0 Hin Hok Hc Hx) as (E1 & Hcl & Hfr).
+        assert (Hfvx : Forall (FV g (mkComp root vs ss outs)) x).
+        { rewrite Forall_forall in Hfr, Hfv. apply Forall_forall. intros y Hy. destruct (Hfr y Hy) as (c0 & Hc0 & Hf).
+          eapply FV_frame; [exact Hf|auto]. }
+        destruct (IH Hwf Hk Hwo Hincl' Hkeys Heids x r Hcl Hfvx H) as (E2 & Hcl2 & Hfv2).
+        split; [now rewrite E2, E1|]. split; assumption.
+      + destruct Hwf as ((Hnm & Hdis & Hwsub) & Hwf). destruct Hwo as (Hwosub & Hwo). invb H as x Hx.
+        assert (Hfresh : Forall (key_fresh imp) (fo_imported h)) by (eapply key_fresh_of; eassumption).
+        assert (Hadmsub : forall c', subcomp c' sub -> admissible_comp re g args P c').
+        { intros c' Hc'. apply Hadm. econstructor; [exact Hin|exact Hc']. }
+        assert (Hsub' : forall imp' cs' r', keys_within (outer ++ fo_imported h) imp' ->
+                   Forall (clean imp') cs' -> Forall fresh cs' ->
+                   compute_component_P re g args P sub cs' = Ok r' ->
+                   map asg_of r' = flat_map (fun x => sem_comp re g args sub imp' (active x)) cs' /\
+                   Forall (Qel g sub) r').
+        { intros imp' cs' r' Hp Hc' Hf' Hr'. cbn [Psub] in Hs.
+          destruct (Hs Hadmsub _ _ _ _ Hwsub Hwosub Hp Hc' Hf' Hr') as (E & Hfvr & _). split; [exact E|].
+          apply Forall_forall. intros el Hel. split; [rewrite Forall_forall in Hfvr; auto|].
+          assert (Hin' : In (asg_of el) (map asg_of r')) by now apply in_map.
+          rewrite E in Hin'. apply in_flat_map in Hin'. destruct Hin' as (x0 & _ & Hx0).
+          eapply sem_comp_complete; exact Hx0. }
+        assert (Hp' : forall a, keys_within (outer ++ fo_imported h) (imports_of g vs ss imp a (fo_imported h) imp)).
+        { intros a. now apply keys_within_imports. }
+        assert (Hadmf : forall a n, pr_fold P vs ss imp h a n = false ->
+                          sem_comp re g args sub (sub_imports g vs ss imp h a) (Some n) = []).
+        { intros a n K. destruct Hadm0 as (_ & AF). exact (AF imp h sub a n Hin K). }
+        destruct (fold_step_P_spec (keys_within (outer ++ fo_imported h)) (Qel g sub) vs ss imp h sub
+                                   (compute_component_P re g args P sub) cs x Hadmf Hsub' Hp' Hnm Hfresh Hc Hx) as (yss & HF & Hout).
+        assert (Hcy : Forall (clean imp) (List.concat yss)).
+        { clear - HF. induction HF as [|c ys l yss (_ & Hy) _ IHf]; [constructor|]. cbn [List.concat]. apply Forall_app. split; [|assumption].
+          eapply Forall_impl; [|exact Hy]. intros y (Hcl & _). exact Hcl. }
+        destruct (fold_outputs_keep g imp h sub _ _ Hcy Hout) as (Ex & Hclx).
+        assert (Hpre : Forall (fun y => exists c0 fe, FV g (mkComp root vs ss outs) c0 /\
+                            folded_values y = folded_values c0 /\
+                            folded_contexts y = folded_contexts c0 ++ [(fo_eid h, fe)] /\
+                            lookup_N (fo_eid h) (folded_contexts c0) = None /\
+                            match fe with Some els => Forall (Qel g sub) els | None => True end) (List.concat yss)).
+        { clear - HF Hfv. revert Hfv. induction HF as [|c ys l yss (_ & Hy) _ IHf]; intros Hfv; [constructor|].
+          inversion Hfv as [|? ? Hfc Hfvl]; subst. cbn [List.concat]. apply Forall_app. split; [|auto].
+          eapply Forall_impl; [|exact Hy]. intros y (_ & _ & Hv & Hl & fe & Hfe & HQ). exists c, fe. auto. }
+        assert (Hfvx : Forall (FV g (mkComp root vs ss outs)) x).
+        { apply mapM_ok in Hout. clear - Hout Hpre Hin Hkeys Heids. induction Hout as [|y z l r Hyz _ IHo]; [constructor|].
+          inversion Hpre as [|? ? (c0 & fe & Hfc0 & Hv & Hfc & Hl & HQ) Hpre']; subst. constructor; [|auto].
+          eapply (fold_outputs_one_FV g root vs ss outs h sub c0 y fe z); eassumption. }
+        destruct (IH Hwf Hk Hwo Hincl' Hkeys Heids x r Hclx Hfvx H) as (E2 & Hcl2 & Hfv2). split; [|split; assumption].
+        rewrite E2, Ex. f_equal.
+        clear - HF. induction HF as [|c ys l yss (Hy & _) _ IHf]; [reflexivity|].
+        cbn [List.concat map flat_map]. now rewrite map_app, IHf, Hy.
+  Qed.
+
+  (* ---------- any component ---------- *)
+  Theorem compute_component_P_full : forall c, IHsub c.
+  Proof.
+    induction c as [root vs ss outs IHss] using SimGen.comp_ind'. intros Hadm outer imp cs r Hwf Hwo Hk Hc Hf H.
+    rewrite compute_component_P_eq in H. invb H as rv0 Hrv. invb H as cs0 Hcs0.
+    unfold vertex_of, expect_some in Hrv. destruct (find_vertex vs root) as [rv|] eqn:Er; [|discriminate].
+    injection Hrv as <-.
+    destruct (enter_vertex_spec re g args vs ss imp rv cs cs0 Hc Hcs0) as (-> & Hcl0).
+    apply wf_comp_steps in Hwf. apply (proj1 (wf_out_eq _ _ _ _)) in Hwo. destruct Hwo as (Hkeys & Heids & Hwos).
+    assert (Hfv0 : Forall (FV g (mkComp root vs ss outs))
+                     (map (recorded (v_vid rv)) (filter (fun c => enter re g args vs ss imp (asg_of c) rv (active c)) cs))).
+    { apply Forall_forall. intros y Hy. apply in_map_iff in Hy. destruct Hy as (c0 & <- & Hc0). apply filter_In in Hc0.
+      apply FV_recorded, FV_fresh. rewrite Forall_forall in Hf. apply Hf. tauto. }
+    destruct (exec_steps_P_spec root vs ss outs outer imp ss Hadm IHss Hwf Hk Hwos (incl_refl _) Hkeys Heids _ r Hcl0 Hfv0 H) as (E & Hclr & Hfvr).
+    split; [|split; [exact Hfvr|exact Hclr]].
+    rewrite E. clear E H Hcl0 Hcs0 Hfv0 Hfvr Hclr. pose proof (find_vertex_vid _ _ _ Er) as Hvid.
+    revert Hc Hf. induction cs as [|c cs IH]; intros Hc Hf; [cbn [filter map flat_map]; apply sem_steps_nil|].
+    inversion Hc as [|? ? Hc1 Hc2]; inversion Hf as [|? ? (F1 & F2 & F3) Hf2]; subst.
+    cbn [filter flat_map]. rewrite SimComp.sem_comp_eq, Er.
+    assert (Ha : asg_of c = Asg [] []) by (rewrite asg_of_eq, F1, F2; reflexivity).
+    rewrite Ha.
+    destruct (enter re g args vs ss imp (Asg [] []) rv (active c)) eqn:Ee.
+    - cbn [map]. rewrite asg_of_recorded, Ha. cbn [set_av a_v a_f app].
+      match goal with |- sem_steps _ _ _ _ _ _ _ (?a :: ?l) = _ => change (a :: l) with ([a] ++ l) end.
+      rewrite sem_steps_app. f_equal. apply IH; assumption.
+    - apply IH; assumption.
+  Qed.
+
+  (* the pruned interpreter refines the (plain) specification, for admissible pruners *)
+  Theorem interpret_P_spec q rows :
+    admissible re g args P q ->
+    wf_comp args [] (q_comp q) -> wf_out (q_comp q) -> NoDup (all_output_names (q_comp q)) ->
+    interpret_P re g args P q = Ok rows ->
+    Forall2 row_equiv rows (sem re g args q).
+  Proof.
+    intros (Astart & Acomp) Hwf Hwo Hnd H. unfold interpret_P in H. invb H as x Hx.
+    destruct q as [rname rparams c vars]. cbn [q_comp q_root_name q_root_params] in *.
+    set (starts := g_starts g rname rparams) in *.
+    set (pstarts := filter (pr_start P) starts) in *.
+    assert (Hc : Forall (clean []) (map (fun v => ctx_new (Some v)) pstarts)).
+    { apply Forall_forall. intros y Hy. apply in_map_iff in Hy. destruct Hy as (v & <- & _). apply ctx_new_clean. }
+    assert (Hf : Forall fresh (map (fun v => ctx_new (Some v)) pstarts)).
+    { apply Forall_forall. intros y Hy. apply in_map_iff in Hy. destruct Hy as (v & <- & _). apply ctx_new_fresh. }
+    assert (Hk : keys_within [] []).
+    { intros k Hl. cbn in Hl. congruence. }
+    destruct (compute_component_P_full c Acomp [] [] _ x Hwf Hwo Hk Hc Hf Hx) as (E & Hfv & Hcl).
+    unfold sem. cbn [q_comp q_root_name q_root_params].
+    assert (Hcomp : Forall (fun cx => complete c (a_f (asg_of cx))) x).
+    { apply Forall_forall. intros cx Hcx. assert (Hin : In (asg_of cx) (map asg_of x)) by now apply in_map.
+      rewrite E in Hin. apply in_flat_map in Hin. destruct Hin as (c0 & _ & Hin). eapply sem_comp_complete; exact Hin. }
+    rewrite flat_map_map in E. cbn [active ctx_new] in E. fold starts.
+    unfold pstarts in E. rewrite (flat_map_dead (pr_start P) (fun s => sem_comp re g args c [] (Some s)) starts Astart) in E.
+    rewrite <- E.
+    apply mapM_ok in H. clear E Hx Hc Hf.
+    destruct c as [root vs ss outs]. cbn [c_outputs] in *.
+    induction H as [|cx row l rows' Hrow _ IH]; [constructor|].
+    inversion Hcl as [|? ? (Hv & _) Hcl2]; inversion Hfv as [|? ? Hfv1 Hfv2]; inversion Hcomp as [|? ? Hcp1 Hcp2]; subst.
+    cbn [map]. constructor; [|apply IH; assumption].
+    eapply construct_output_full; eauto.
+  Qed.
+End EnginePFull.
+
+(* pruning is invisible to the engine model: any query (edges, @optional, @recurse, @fold with
+   outputs, count outputs / tags / filters, imported tags) without a fold eligible for the take(min)
+   truncation; any admissible pruner *)
+Theorem engine_pruning_invisible re g args P q rows_pruned rows_plain :
+  ty_indep g -> admissible re g args P q ->
+  wf_comp args [] (q_comp q) -> wf_out (q_comp q) -> NoDup (all_output_names (q_comp q)) ->
+  interpret_P re g args P q = Ok rows_pruned -> interpret re g args q = Ok rows_plain ->
+  Forall2 row_equiv rows_pruned rows_plain.
+Proof.
+  intros Hind Hadm Hwf Hwo Hnd H1 H2.
+  pose proof (interpret_P_spec re g args P Hind q rows_pruned Hadm Hwf Hwo Hnd H1) as S1.
+  pose proof (interpret_spec re g args Hind q rows_plain Hwf Hwo Hnd H2) as S2.
+  exact (Forall2_row_equiv_join _ _ _ S1 S2).
+Qed.
+
+(* ... in particular when the adapter prunes by the hints of the vertex being produced *)
+Theorem engine_pruning_by_hints_invisible re g args q rows_pruned rows_plain :
+  ty_indep g -> args_wf args -> wf_hints_query q = true ->
+  (forall ty f n, wf (g_prop g ty f n) = true) ->
+  (forall c vtx f n,
+      subcomp c (q_comp q) -> In vtx (c_vertices c) -> In f (v_filters vtx) -> ty_nullable (vf_fty f) = false ->
+      match v_from vtx with Some from => g_coerce g from (v_type vtx) n = true | None => True end ->
+      fv_is_null (g_prop g (v_type vtx) (vf_field f) n) = false) ->
+  wf_comp args [] (q_comp q) -> wf_out (q_comp q) -> NoDup (all_output_names (q_comp q)) ->
+  interpret_P re g args (hint_pruner g args q) q = Ok rows_pruned -> interpret re g args q = Ok rows_plain ->
+  Forall2 row_equiv rows_pruned rows_plain.
+Proof.
+  intros Hind Hargs Hwfq Hg Hty Hwf Hwo Hnd H1 H2.
+  eapply engine_pruning_invisible; eauto. now apply hint_pruner_admissible.
+Qed.
+
+(* the same with the static side conditions as one computable test (WfCheck.spec_hyps) *)
+From TF Require Import WfCheck.
+Theorem engine_pruning_by_hints_invisible_checked re g args q rows_pruned rows_plain :
+  ty_indep g -> args_wf args -> wf_hints_query q = true -> spec_hyps args q = true ->
+  (forall ty f n, wf (g_prop g ty f n) = true) ->
+  (forall c vtx f n,
+      subcomp c (q_comp q) -> In vtx (c_vertices c) -> In f (v_filters vtx) -> ty_nullable (vf_fty f) = false ->
+      match v_from vtx with Some from => g_coerce g from (v_type vtx) n = true | None => True end ->
+      fv_is_null (g_prop g (v_type vtx) (vf_field f) n) = false) ->
+  interpret_P re g args (hint_pruner g args q) q = Ok rows_pruned -> interpret re g args q = Ok rows_plain ->
+  Forall2 row_equiv rows_pruned rows_plain.
+Proof.
+  intros Hind Hargs Hwfq Hsp Hg Hty H1 H2. destruct (spec_hyps_sound args q Hsp) as (A & B & C).
+  eapply engine_pruning_by_hints_invisible; eauto.
+Qed.
+
+(* ====================================================================================== *)
+(* Part 5: the dynamic candidate the adapter obtains from resolve() on the engine's context   *)
+(* is the one hint_pruner uses for the row that context stands for                            *)
+(* ====================================================================================== *)
+Theorem dyn_resolve_agrees_destination q g args e p dv vtx c n root vs ss outs k :
+  args_wf args ->
+  dynamically_required q args (dest_of_edge e) p = Ok (Some dv) ->
+  current_vertex q (dest_of_edge e) = Ok vtx ->
+  comp_at q (e_from e) = Ok (mkComp root vs ss outs) ->
+  tag_scope_ok root vs ss (dv_field dv) ->
+  dyn_resolve q g dv c = Ok k ->
+  cand_from_op (dyn_nr q dv) (dv_op dv) (dv_init dv)
+    (sem_tagval g args vs ss (imported_tags c) (asg_of c) n vtx (dv_field dv)) = Ok k.
+Proof.
+  intros Hargs D Hcv Hcomp Hscope H.
+  destruct (dynamic_hint_structure no_regex q args Hargs _ p dv vtx D Hcv) as (_ & Hst & (f & Hfi & Hfp & Hfo & Hfa & Hdyn) & _).
+  cbn [vi_start dest_of_edge] in Hst. unfold sem_tagval.
+  eapply (dyn_resolve_agrees q g args dv c root vs ss outs); eauto.
+  - rewrite Hst. exact Hcomp.
+  - intros cf E. unfold is_dynamic_filter in Hdyn. rewrite Hfa, E in Hdyn. apply andb_prop in Hdyn.
+    destruct Hdyn as [_ Hr]. cbn [vi_front dest_of_edge resolved] in Hr. apply N.ltb_lt in Hr.
+    unfold current_vertex, current_component, comp_at in Hcv. cbn [vi_vid dest_of_edge] in Hcv.
+    destruct (comp_of_vid (q_comp q) (e_to e)) as [c0|]; [|discriminate]. cbn in Hcv.
+    apply expect_some_ok in Hcv. apply find_vertex_some in Hcv. destruct Hcv as [_ Ev]. rewrite Ev. lia.
 Qed.
